@@ -3,3 +3,28 @@
 
 class MainError(Exception):
     pass
+
+
+class Scripts:
+    """error classes whose module is `__main__` / `builtins` (a script run directly; a C-extension style class) and
+    that are declared inside a class / a function: the canonical name is the bare class name"""
+
+    class MainNested(Exception):
+        pass
+
+    class BuiltinsNested(Exception):
+        pass
+
+
+def _declare():
+    class MainLocal(Exception):
+        pass
+    return MainLocal
+
+
+Scripts.MainNested.__module__ = '__main__'
+Scripts.BuiltinsNested.__module__ = 'builtins'
+MainLocal = _declare()
+MainLocal.__module__ = '__main__'
+# by canonical (bare) name, for the probe step
+BARE = {'MainNested': Scripts.MainNested, 'BuiltinsNested': Scripts.BuiltinsNested, 'MainLocal': MainLocal}
